@@ -133,7 +133,7 @@ PROPS = {
         "design_ref": "DESIGN.md §7 C19", "assumptions": [],
     },
     "C04": {
-        "lean_modules": ["Cachelito.Props.C04", "Cachelito.Props.X01", "Cachelito.Props.T02", "Cachelito.Props.T07", "Cachelito.Props.T08", "Cachelito.Props.T11", "Cachelito.Props.T14", "Cachelito.Props.T15", "Cachelito.Props.T16"],
+        "lean_modules": ["Cachelito.Props.C04", "Cachelito.Props.X01", "Cachelito.Props.T02", "Cachelito.Props.T07", "Cachelito.Props.T08", "Cachelito.Props.T11", "Cachelito.Props.T14", "Cachelito.Props.T15", "Cachelito.Props.T16", "Cachelito.Props.S01"],
         "streams": [core_stream(nontrivial=["eviction", "expiry"], enumerate_=SMALL_SCOPE)],
         "monitors": ["C04"],
         "rule": "generated episodes (config product flavour x policy x limit x max_memory x ttl x fw, key alphabet limit+2) run on the real engines; a step is non-trivial when it evicts or purges an entry; distinct = distinct (config, pre-state, operation)",
@@ -156,7 +156,7 @@ PROPS = {
         "assumptions": ["all stores of a history go through insert_with_memory (as the macros generate when max_memory is set)", "size_of table as reported by rustc"],
     },
     "C06": {
-        "lean_modules": ["Cachelito.Props.C06", "Cachelito.Props.T03", "Cachelito.Props.T09", "Cachelito.Props.T10", "Cachelito.Props.T12"],
+        "lean_modules": ["Cachelito.Props.C06", "Cachelito.Props.T03", "Cachelito.Props.T09", "Cachelito.Props.T10", "Cachelito.Props.T12", "Cachelito.Props.S01"],
         "streams": [core_stream(nontrivial=["expiry", "ttl-boundary"]),
                     sched_stream(nontrivial=['served-call-source-checked', 'concurrent-call'], quick=(6, 8, 60), what="L3: scheduled runs that start from EXPIRED entries (stored, then aged past the ttl through the verif hook): a call is served from the cache only if some call stored the key again; expired-lookup paths race with stores and with each other")],
         "monitors": ["C06"],
@@ -190,7 +190,7 @@ PROPS = {
         "assumptions": ["frequency_weight > 0", "scores below f64::MAX / hit counters below u64::MAX"],
     },
     "C09": {
-        "lean_modules": ["Cachelito.Props.C09", "Cachelito.Props.C09c", "Cachelito.Props.T13", "Cachelito.Props.T17", "Cachelito.Props.T17m", "Cachelito.Props.T18"],
+        "lean_modules": ["Cachelito.Props.C09", "Cachelito.Props.C09c", "Cachelito.Props.T13", "Cachelito.Props.T17", "Cachelito.Props.T17m", "Cachelito.Props.T18", "Cachelito.Props.S01"],
         "streams": [macro_stream(nontrivial=["c09-call"]),
                     sched_stream(nontrivial=["c09-concurrent-run"], quick=(6, 8, 80), what="L3 calls-only programs on PLAIN Result functions with an impure body (one thread's calls succeed, the others' fail for the same arguments) under the deterministic scheduler: an Err is never served from the cache, and once an Ok-storing call has returned every call started later is served without running the body (a failing call that finishes late does not disturb the stored Ok)")],
         "monitors": ["C09"],
@@ -219,7 +219,7 @@ PROPS = {
         "technique": TECH, "design_ref": "DESIGN.md §7 C11", "assumptions": [],
     },
     "C12": {
-        "lean_modules": ["Cachelito.Props.C12", "Cachelito.Props.C12r", "Cachelito.Props.T13", "Cachelito.Props.T19", "Cachelito.Props.T20"],
+        "lean_modules": ["Cachelito.Props.C12", "Cachelito.Props.C12r", "Cachelito.Props.T13", "Cachelito.Props.T19", "Cachelito.Props.T20", "Cachelito.Props.S01"],
         "streams": [macro_stream(nontrivial=["group-invalidation-hit"]), reg_stream(),
                     sched_stream(nontrivial=['concurrent-tag', 'concurrent-cache', 'concurrent-event'], quick=(6, 8, 60), what="L3: scheduled runs in which group / name invalidations race with calls: a call that starts after an invalidation has COMPLETED is never served an entry stored before that invalidation began")],
         "monitors": ["C12"],
@@ -229,7 +229,7 @@ PROPS = {
         "technique": TECH, "design_ref": "DESIGN.md §7 C12", "assumptions": ["distinct cache names"],
     },
     "C13": {
-        "lean_modules": ["Cachelito.Props.C13", "Cachelito.Props.C12r", "Cachelito.Props.T02", "Cachelito.Props.T13", "Cachelito.Props.T19", "Cachelito.Props.T20"],
+        "lean_modules": ["Cachelito.Props.C13", "Cachelito.Props.C12r", "Cachelito.Props.T02", "Cachelito.Props.T13", "Cachelito.Props.T19", "Cachelito.Props.T20", "Cachelito.Props.S01"],
         "streams": [macro_stream(nontrivial=["conditional-invalidation-removed", "group-invalidation-hit"]), reg_stream(),
                     sched_stream(nontrivial=['concurrent-with', 'concurrent-allwith'], quick=(6, 8, 60), what="L3: scheduled runs in which conditional invalidations race with calls: a key matched by a completed invalidate_with / invalidate_all_with is not served from an entry stored before it began; non-matching caches and keys are untouched at quiescence (dump replayed on the interleaving model)")],
         "monitors": ["C13"],
